@@ -1,52 +1,93 @@
 ---------------------------- MODULE MoleculeEdit ----------------------------
-(* vermouth.molecule.Molecule as an editable object: a small heap of molecules, one action per
-   public editing call.  A molecule is
+(* vermouth.molecule.Molecule / Block and vermouth.system.System as editable objects: a small heap of molecules
+   and blocks, the molecule list of one System, one action per public editing call.
+
+   A molecule is
      [nodes : Seq([key, resid, cg, tag]),      insertion-ordered nodes with the attributes the property names
-      edges : SUBSET (Key \X Key),             undirected, stored as <<a, b>> with a < b
-      inter : [Types -> Seq([atoms, ver, tag])], per-type interaction lists
-      maxnode : Int | NULL]                    the `max_node` cache of merge_molecule
-   CacheModel = "asShipped" reproduces the cache exactly as the pinned commit has it (set by merge, bumped
-   by add_node whatever the key, unknown to bulk insertion and to removal, 0 being falsy);
-   CacheModel = "repaired" is the design the property demands: merge always continues after the highest key.
-   Error outcomes of a call are recorded in `err` and leave the heap unchanged.                      *)
+                                               (tag = atom name; the drivers also use it as the chain of the atom)
+      edges : SUBSET (Key \X Key),             undirected, stored as <<a, b>> with a before b
+      inter : [Types -> Seq([atoms, ver, tag, edge])],  per-type interaction lists (edge: meta['edge'], default TRUE)
+      maxnode : Int | NULL,                    the `max_node` cache of merge_molecule
+      bk : [meta, cit, log, nrexcl, ff]]       BOOKKEEPING that travels with a copy or a merge (not part of the
+                                               statement of C12: separately named clauses, see the end of the module)
+   Cells in BlockIds hold Blocks: their node keys are atom NAMES (strings), everything else is the same class.
+   TLC cannot compare an integer with a string, so every operator that orders or creates keys takes a flag saying
+   whether the molecule at hand is a block.
+
+   CacheModel = "asShipped" reproduces the cache exactly as the pinned commit had it (set by merge, bumped by add_node
+   whatever the key, unknown to bulk insertion and to removal, 0 being falsy): the spec mutant of D2/D3;
+   CacheModel = "repaired" is the design the property demands, the cache abstracted away (recomputed on use);
+   CacheModel = "tracked"  follows the repaired implementation step by step (kept while the next key is added,
+   dropped otherwise) so that the cached value itself can be compared with the real object; CacheSound says that a
+   cache that is present is right, which is why "tracked" and "repaired" give the same merges.
+   Error outcomes of a call are recorded in `err`.                                                       *)
 EXTENDS Integers, Sequences, FiniteSets, TLC
 
 CONSTANTS Id,          \* heap cells
+          BlockIds,    \* the cells that hold Blocks (string keys)
           Types,       \* interaction types
-          InitMols,    \* set of molecules a heap cell may hold initially
-          AtomSeqs,    \* atom tuples that calls may name for interactions
+          EdgeTypes,   \* the types make_edges_from_interactions turns into bonds
+          InitHeaps,   \* set of initial heaps [Id -> Mol]
+          InitSys,     \* set of initial molecule lists of the System (sequences of cells)
+          AtomSeqs,    \* atom tuples that calls may name for interactions (molecules)
           NodeSets,    \* node sets that bulk calls (add_nodes_from, remove_nodes_from, subgraph) may name
-          Key,         \* node keys that calls may name explicitly
+          Key,         \* node keys that calls may name explicitly (molecules)
+          BKey,        \* atom names that calls may name explicitly (blocks)
+          BAtomSeqs,   \* atom-name tuples for interactions of blocks
+          BRank,       \* [name -> Nat]: the order Python gives to the names (only used to store an edge one way round)
           AttrChoice,  \* sequence of [resid, cg, tag] records a caller may give to a new atom
+          ChainSets,   \* chain selections MergeChains may be called with
+          Offsets,     \* <<atom_offset, offset_resid, offset_charge_group>> triples for Block.to_molecule
           MaxNodes,    \* bound on nodes per molecule
           MaxInter,    \* bound on interactions per molecule
           MaxResid,    \* bound on resid / charge group (merges shift them upwards)
-          MaxDepth,    \* bound on history length (state constraint)
-          CacheModel,  \* "asShipped" | "repaired"
-          OneShotPurges \* TRUE: remove_nodes_from(generator) also purges interactions (repaired design)
+          MaxDepth,    \* bound on history length
+          Acts,        \* names of the actions enabled in this configuration
+          CacheModel,  \* "asShipped" | "repaired" | "tracked"
+          OneShotPurges, \* TRUE: remove_nodes_from(generator) also purges interactions (repaired design)
+          LogExtra,    \* "always": merge_molecule appends its correspondence to every log entry it merges (tree as found)
+                       \* "blocks": only when the newcomer is a Block, whose entries refer to atom NAMES (demanded)
+          CitShared,   \* TRUE: subgraph() / to_molecule() hand their result the citation SET OBJECT of the source (as found)
+          LogPurge     \* TRUE: removing an atom drops the log emissions that refer to it (demanded); FALSE as found
 
 NULL == -1
 
-VARIABLES mols, err, steps
-vars == <<mols, err, steps>>
+VARIABLES mols,    \* the heap
+          sys,     \* System.molecules as a sequence of cells
+          parts,   \* partition of Id: cells whose molecules hold the SAME citation set object
+          err,     \* outcome of the last call
+          obs,     \* names of the bookkeeping clauses the last call did not respect
+          last,    \* name of the last call (lets the action properties below be evaluated cheaply)
+          steps
+vars == <<mols, sys, parts, err, obs, last, steps>>
 
 -----------------------------------------------------------------------------
 (* pure helpers *)
+IsB(m)       == m \in BlockIds
 Idx(M)       == DOMAIN M.nodes
 KeysOf(M)    == {M.nodes[i].key : i \in Idx(M)}
 PosOf(M, k)  == CHOOSE i \in Idx(M) : M.nodes[i].key = k
 NodeOf(M, k) == M.nodes[PosOf(M, k)]
 MaxKeyOf(M)  == CHOOSE k \in KeysOf(M) : \A j \in KeysOf(M) : j <= k
-Norm(a, b)   == IF a < b THEN <<a, b>> ELSE <<b, a>>
+Less(b, x, y) == IF b THEN BRank[x] < BRank[y] ELSE x < y
+NormK(b, x, y) == IF Less(b, y, x) THEN <<y, x>> ELSE <<x, y>>
+Norm(x, y)   == NormK(FALSE, x, y)
 Truthy(x)    == x # NULL /\ x # 0
 RangeOf(s)   == {s[i] : i \in DOMAIN s}
-FilterSeq(s, Test(_)) == SelectSeq(s, Test)
+NameOf(b, k) == IF b THEN k ELSE ToString(k)            \* martinize2 formats log arguments by str(name)
 
-EmptyMol == [nodes |-> <<>>, edges |-> {}, inter |-> [t \in Types |-> <<>>], maxnode |-> NULL]
+NoBook   == [meta |-> "", cit |-> {"vermouth"}, log |-> <<>>, nrexcl |-> NULL, ff |-> ""]     \* Molecule()
+EmptyMol == [nodes |-> <<>>, edges |-> {}, inter |-> [t \in Types |-> <<>>], maxnode |-> NULL, bk |-> NoBook]
 NInter(M) == LET RECURSIVE S(_) S(T) == IF T = {} THEN 0 ELSE LET t == CHOOSE x \in T : TRUE IN Len(M.inter[t]) + S(T \ {t})
              IN S(Types)
+MkInter(at, v, t, e) == [atoms |-> at, ver |-> v, tag |-> t, edge |-> e]
 
-Bump(mn) == IF CacheModel = "asShipped" THEN (IF Truthy(mn) THEN mn + 1 ELSE 0) ELSE NULL
+\* the cache after Molecule.add_node(k) on a molecule (b: a block, whose keys are not numbers)
+Bump(mn, k, b) ==
+  CASE CacheModel = "asShipped" -> (IF Truthy(mn) THEN mn + 1 ELSE 0)
+    [] CacheModel = "tracked"   -> (IF b \/ mn = NULL THEN NULL ELSE IF k = mn + 1 THEN k ELSE NULL)
+    [] OTHER                    -> NULL
+Invalidate(mn) == IF CacheModel = "asShipped" THEN mn ELSE NULL        \* bulk insertion and removal
 
 \* networkx add_node: an existing key keeps its position, the given attributes replace the old ones
 PutNode(M, n) ==
@@ -61,13 +102,27 @@ PutNodes(M, ns) == IF ns = <<>> THEN M ELSE PutNodes(PutNode(M, Head(ns)), Tail(
 RECURSIVE AddNodesOneByOne(_, _)
 AddNodesOneByOne(M, ns) ==
   IF ns = <<>> THEN M
-  ELSE AddNodesOneByOne([PutNode(M, Head(ns)) EXCEPT !.maxnode = Bump(M.maxnode)], Tail(ns))
+  ELSE AddNodesOneByOne([PutNode(M, Head(ns)) EXCEPT !.maxnode = Bump(M.maxnode, Head(ns).key, FALSE)], Tail(ns))
+
+\* log entries: Seq([msg, ems]); an emission is a sequence of <<format name, node key>> pairs
+EmKeys(em)      == {em[p][2] : p \in DOMAIN em}
+EntryKeys(e)    == UNION {EmKeys(e.ems[j]) : j \in DOMAIN e.ems}
+LogKeys(L)      == UNION {EntryKeys(L[i]) : i \in DOMAIN L}
+LogDangles(M)   == ~ (LogKeys(M.bk.log) \subseteq KeysOf(M))
+Msgs(L)         == {L[i].msg : i \in DOMAIN L}
+EmsOf(L, msg)   == IF msg \in Msgs(L) THEN L[CHOOSE i \in DOMAIN L : L[i].msg = msg].ems ELSE <<>>
+LogAdd(L, msg, ems) ==            \* log_entries[level][msg] += ems
+  IF msg \in Msgs(L) THEN [i \in DOMAIN L |-> IF L[i].msg = msg THEN [L[i] EXCEPT !.ems = @ \o ems] ELSE L[i]]
+  ELSE Append(L, [msg |-> msg, ems |-> ems])
+PurgeLog(L, ks) == [i \in DOMAIN L |-> [L[i] EXCEPT !.ems = SelectSeq(@, LAMBDA em : EmKeys(em) \cap ks = {})]]
 
 DropNodes(M, ks, purge) ==
   [M EXCEPT !.nodes = SelectSeq(M.nodes, LAMBDA n : n.key \notin ks),
             !.edges = {e \in M.edges : e[1] \notin ks /\ e[2] \notin ks},
             !.inter = IF purge THEN [t \in Types |-> SelectSeq(M.inter[t], LAMBDA x : RangeOf(x.atoms) \cap ks = {})]
-                      ELSE M.inter]
+                      ELSE M.inter,
+            !.maxnode = Invalidate(M.maxnode),
+            !.bk.log = IF LogPurge THEN PurgeLog(@, ks) ELSE @]
 
 MkNode(k, ai) == [key |-> k, resid |-> AttrChoice[ai].resid, cg |-> AttrChoice[ai].cg, tag |-> AttrChoice[ai].tag]
 
@@ -77,11 +132,86 @@ SortedSeq(S) == IF S = {} THEN <<>>
                 ELSE LET m == CHOOSE x \in S : \A y \in S : x <= y IN <<m>> \o SortedSeq(S \ {m})
 
 -----------------------------------------------------------------------------
+(* effects of the calls as pure operators: [mol |-> resulting molecule, err |-> outcome, obs |-> clauses] *)
+RO(M, e, o) == [mol |-> M, err |-> e, obs |-> o]
+R(M, e)     == RO(M, e, {})
+
+EffAddNode(M, n, b) == R([PutNode(M, n) EXCEPT !.maxnode = Bump(M.maxnode, n.key, b)], "none")
+
+\* bulk insertion by-passed Molecule.add_node at the pinned commit; now it invalidates the cache
+EffAddNodesFrom(M, ns) == R([PutNodes(M, ns) EXCEPT !.maxnode = Invalidate(@)], "none")
+
+EffSetResid(M, k, r) == R([M EXCEPT !.nodes[PosOf(M, k)].resid = r], "none")   \* mol.nodes[k]['resid'] = r
+
+EffRemoveNode(M, k) == IF k \in KeysOf(M) THEN R(DropNodes(M, {k}, TRUE), "none") ELSE R(M, "NetworkXError")
+
+\* oneShot: the caller passed a generator
+EffRemoveNodesFrom(M, ks, oneShot) == R(DropNodes(M, ks, ~oneShot \/ OneShotPurges), "none")
+
+EffAddEdge(M, a, b, blk) == R([M EXCEPT !.edges = @ \cup {NormK(blk, a, b)}], "none")
+
+EffAddInterE(M, ty, at, v, t, e) ==
+  IF RangeOf(at) \subseteq KeysOf(M)
+  THEN R([M EXCEPT !.inter[ty] = Append(@, MkInter(at, v, t, e))], "none")
+  ELSE R(M, "KeyError")
+EffAddInter(M, ty, at, v, t) == EffAddInterE(M, ty, at, v, t, TRUE)
+
+Hits(M, ty, at, v) == {j \in DOMAIN M.inter[ty] : M.inter[ty][j].atoms = at /\ M.inter[ty][j].ver = v}
+FirstOf(S) == CHOOSE x \in S : \A y \in S : x <= y
+
+\* add_or_replace_interaction(type, atoms, parameters, meta, citations): the citations are added to the molecule's
+\* set whether the interaction was replaced or added, but not when the call raised
+EffAddOrReplaceC(M, ty, at, v, t, cs) ==
+  LET r == IF Hits(M, ty, at, v) # {}
+           THEN R([M EXCEPT !.inter[ty][FirstOf(Hits(M, ty, at, v))] = MkInter(at, v, t, TRUE)], "none")
+           ELSE EffAddInter(M, ty, at, v, t)
+  IN IF r.err = "none" THEN R([r.mol EXCEPT !.bk.cit = @ \cup cs], "none") ELSE r
+EffAddOrReplace(M, ty, at, v, t) == EffAddOrReplaceC(M, ty, at, v, t, {})
+
+EffRemoveInter(M, ty, at, v) ==
+  IF Hits(M, ty, at, v) # {}
+  THEN LET j == FirstOf(Hits(M, ty, at, v))
+           L == M.inter[ty]
+       IN R([M EXCEPT !.inter[ty] = [i \in 1..(Len(L) - 1) |-> IF i < j THEN L[i] ELSE L[i + 1]]], "none")
+  ELSE R(M, "KeyError")
+
+\* make_edges_from_interactions: consecutive atoms of every interaction of an edge-making type become bonded,
+\* unless the interaction says edge = FALSE
+EffMakeEdges(M, blk) ==
+  R([M EXCEPT !.edges = @ \cup UNION {UNION {{NormK(blk, M.inter[t][j].atoms[p], M.inter[t][j].atoms[p + 1])
+                                                   : p \in 1..(Len(M.inter[t][j].atoms) - 1)}
+                                              : j \in {x \in DOMAIN M.inter[t] : M.inter[t][x].edge}}
+                                      : t \in Types \cap EdgeTypes}], "none")
+
+\* subgraph(nodes): the new molecule lists its atoms in the order of the ARGUMENT (kseq), copies bonds and the
+\* interactions that lie entirely inside; copy() is subgraph(all nodes in their own order)
+\* keys listed more than once count once, at their first position.
+\* Bookkeeping as found: meta (shallow copy), force field, nrexcl and the citations come along, the log entries do not.
+RECURSIVE Dedup(_)
+Dedup(s) == IF s = <<>> THEN <<>>
+            ELSE LET r == Dedup(SubSeq(s, 1, Len(s) - 1)) IN IF s[Len(s)] \in RangeOf(r) THEN r ELSE Append(r, s[Len(s)])
+SubMol(M, kseq0) ==
+  LET kseq == Dedup(kseq0)
+      ks == RangeOf(kseq) IN
+  [nodes |-> [i \in DOMAIN kseq |-> NodeOf(M, kseq[i])],
+   edges |-> {e \in M.edges : e[1] \in ks /\ e[2] \in ks},
+   inter |-> [t \in Types |-> SelectSeq(M.inter[t], LAMBDA x : RangeOf(x.atoms) \subseteq ks)],
+   maxnode |-> NULL,
+   bk |-> [M.bk EXCEPT !.log = <<>>]]
+KeySeq(M) == [i \in Idx(M) |-> M.nodes[i].key]
+CopyMol(M) == [SubMol(M, KeySeq(M)) EXCEPT !.bk.log = M.bk.log]            \* copy(): own citation set, deep-copied log
+
+\* networkx's own Graph.copy(): atoms (attribute dicts copied) and bonds, on a NEW Molecule(): no interactions,
+\* none of the bookkeeping
+GraphCopyMol(M) == [EmptyMol EXCEPT !.nodes = M.nodes, !.edges = M.edges]
+
+-----------------------------------------------------------------------------
 (* merge_molecule: `base` is the key after which the newcomer's atoms are numbered *)
 MergeBase(M) ==
   IF M.nodes = <<>> THEN 0
-  ELSE IF CacheModel = "asShipped"
-       THEN (IF Truthy(M.maxnode) THEN M.maxnode ELSE MaxKeyOf(M))
+  ELSE IF CacheModel \in {"asShipped", "tracked"}
+       THEN (IF (CacheModel = "tracked" /\ M.maxnode # NULL) \/ (CacheModel = "asShipped" /\ Truthy(M.maxnode))
+             THEN M.maxnode ELSE MaxKeyOf(M))
        ELSE MaxKeyOf(M)
 
 Corr(N, base) == [i \in Idx(N) |-> base + i]          \* i-th atom of the newcomer -> new key
@@ -92,150 +222,251 @@ Glue(M, N, base) ==
       new  == [i \in Idx(N) |-> [key |-> base + i, resid |-> N.nodes[i].resid + dres,
                                  cg |-> N.nodes[i].cg + dcg, tag |-> N.nodes[i].tag]]
       ren(k) == base + PosOf(N, k)
-      M0   == [M EXCEPT !.maxnode = IF CacheModel = "asShipped" THEN base ELSE NULL]
+      M0   == [M EXCEPT !.maxnode = IF CacheModel = "repaired" THEN NULL ELSE base]
       M1   == AddNodesOneByOne(M0, new)
   IN [M1 EXCEPT !.inter = [t \in Types |-> M.inter[t] \o [j \in DOMAIN N.inter[t] |->
                                         [N.inter[t][j] EXCEPT !.atoms = [p \in DOMAIN N.inter[t][j].atoms |-> ren(N.inter[t][j].atoms[p])]]]],
-                !.edges = M.edges \cup {Norm(ren(e[1]), ren(e[2])) : e \in N.edges}]
+                !.edges = M.edges \cup {Norm(ren(e[1]), ren(e[2])) : e \in {x \in N.edges : x[1] # x[2]}}]
 
------------------------------------------------------------------------------
-(* effects of the calls as pure operators: [mol |-> resulting molecule, err |-> outcome] *)
-R(M, e) == [mol |-> M, err |-> e]
+\* the log entries of the newcomer, merged one by one into L; stops at the first entry that refers to an atom the
+\* newcomer no longer has (the implementation looks the new key up and raises KeyError there, everything else being
+\* merged already)
+RECURSIVE MergeLog(_, _, _, _, _)
+MergeLog(L, NL, N, base, nB) ==
+  IF NL = <<>> THEN [log |-> L, ok |-> TRUE]
+  ELSE LET e == Head(NL) IN
+       IF ~ (EntryKeys(e) \subseteq KeysOf(N)) THEN [log |-> L, ok |-> FALSE]
+       ELSE LET ren  == [j \in DOMAIN e.ems |-> [p \in DOMAIN e.ems[j] |-> <<e.ems[j][p][1], base + PosOf(N, e.ems[j][p][2])>>]]
+                bind == [i \in Idx(N) |-> <<NameOf(nB, N.nodes[i].key), base + i>>]
+                more == IF LogExtra = "always" \/ nB THEN <<bind>> ELSE <<>>
+            IN MergeLog(LogAdd(L, e.msg, ren \o more), Tail(NL), N, base, nB)
 
-EffAddNode(M, n) == R([PutNode(M, n) EXCEPT !.maxnode = Bump(M.maxnode)], "none")
+(* BOOKKEEPING clauses of a merge, evaluated on (receiver before, newcomer, receiver after): the names of those that fail.
+   LogKept          every log entry of both operands is still there, the receiver's emissions first and unchanged
+   LogRenumbered    the newcomer's emissions follow, their atom references renumbered with the correspondence
+   LogNothingAdded  nothing else: a molecule's entries carry their emissions already; only a BLOCK, whose entries
+                    refer to atom names, gets one emission per entry binding those names to the new atoms
+   CitKept          the citations are the union of both
+   MetaKept         meta, force field and nrexcl of a non-empty receiver are unchanged                              *)
+MergeBookObs(M, N, M2, base, nB) ==
+  LET all  == Msgs(M.bk.log) \cup Msgs(N.bk.log)
+      a(m) == EmsOf(M.bk.log, m)
+      n(m) == EmsOf(N.bk.log, m)
+      z(m) == EmsOf(M2.bk.log, m)
+      renOK(m) == \A j \in DOMAIN n(m) : LET x == z(m)[Len(a(m)) + j] IN
+                     /\ Len(x) = Len(n(m)[j])
+                     /\ \A p \in DOMAIN x : x[p][1] = n(m)[j][p][1] /\ x[p][2] = base + PosOf(N, n(m)[j][p][2])
+      kept == \A m \in all : /\ m \in Msgs(M2.bk.log)
+                             /\ Len(z(m)) >= Len(a(m)) + Len(n(m))
+                             /\ SubSeq(z(m), 1, Len(a(m))) = a(m)
+  IN {c \in {"LogKept"} : ~ kept}
+     \cup {c \in {"LogRenumbered"} : kept /\ ~ (\A m \in all : renOK(m))}
+     \cup {c \in {"LogNothingAdded"} : kept /\ ~ (/\ Msgs(M2.bk.log) = all
+                                                  /\ \A m \in all : Len(z(m)) = Len(a(m)) + Len(n(m))
+                                                                       + (IF nB /\ m \in Msgs(N.bk.log) THEN 1 ELSE 0))}
+     \cup {c \in {"CitKept"} : M2.bk.cit # M.bk.cit \cup N.bk.cit}
+     \cup {c \in {"MetaKept"} : M.nodes # <<>> /\ (M2.bk.meta # M.bk.meta \/ M2.bk.ff # M.bk.ff \/ M2.bk.nrexcl # M.bk.nrexcl)}
 
-EffAddNodesFrom(M, ns) == R(PutNodes(M, ns), "none")      \* networkx bulk insertion: by-passes Molecule.add_node
-
-EffSetResid(M, k, r) == R([M EXCEPT !.nodes[PosOf(M, k)].resid = r], "none")   \* mol.nodes[k]['resid'] = r
-
-EffRemoveNode(M, k) == IF k \in KeysOf(M) THEN R(DropNodes(M, {k}, TRUE), "none") ELSE R(M, "NetworkXError")
-
-\* oneShot: the caller passed a generator
-EffRemoveNodesFrom(M, ks, oneShot) == R(DropNodes(M, ks, ~oneShot \/ OneShotPurges), "none")
-
-EffAddEdge(M, a, b) == R([M EXCEPT !.edges = @ \cup {Norm(a, b)}], "none")
-
-EffAddInter(M, ty, at, v, t) ==
-  IF RangeOf(at) \subseteq KeysOf(M)
-  THEN R([M EXCEPT !.inter[ty] = Append(@, [atoms |-> at, ver |-> v, tag |-> t])], "none")
-  ELSE R(M, "KeyError")
-
-Hits(M, ty, at, v) == {j \in DOMAIN M.inter[ty] : M.inter[ty][j].atoms = at /\ M.inter[ty][j].ver = v}
-FirstOf(S) == CHOOSE x \in S : \A y \in S : x <= y
-
-EffAddOrReplace(M, ty, at, v, t) ==
-  IF Hits(M, ty, at, v) # {}
-  THEN R([M EXCEPT !.inter[ty][FirstOf(Hits(M, ty, at, v))] = [atoms |-> at, ver |-> v, tag |-> t]], "none")
-  ELSE EffAddInter(M, ty, at, v, t)
-
-EffRemoveInter(M, ty, at, v) ==
-  IF Hits(M, ty, at, v) # {}
-  THEN LET j == FirstOf(Hits(M, ty, at, v))
-           L == M.inter[ty]
-       IN R([M EXCEPT !.inter[ty] = [i \in 1..(Len(L) - 1) |-> IF i < j THEN L[i] ELSE L[i + 1]]], "none")
-  ELSE R(M, "KeyError")
-
-\* subgraph(nodes): the new molecule lists its atoms in the order of the ARGUMENT (kseq), copies bonds and the
-\* interactions that lie entirely inside; copy() is subgraph(all nodes in their own order)
-\* keys listed more than once count once, at their first position
-RECURSIVE Dedup(_)
-Dedup(s) == IF s = <<>> THEN <<>>
-            ELSE LET r == Dedup(SubSeq(s, 1, Len(s) - 1)) IN IF s[Len(s)] \in RangeOf(r) THEN r ELSE Append(r, s[Len(s)])
-SubMol(M, kseq0) ==
-  LET kseq == Dedup(kseq0)
-      ks == RangeOf(kseq) IN
-  [nodes |-> [i \in DOMAIN kseq |-> NodeOf(M, kseq[i])],
-   edges |-> {e \in M.edges : e[1] \in ks /\ e[2] \in ks},
-   inter |-> [t \in Types |-> SelectSeq(M.inter[t], LAMBDA x : RangeOf(x.atoms) \subseteq ks)],
-   maxnode |-> NULL]
-
-EffMerge(M, N) ==
-  LET base == MergeBase(M)
-  IN IF M.nodes # <<>> /\ base \notin KeysOf(M)
-     THEN R(M, "KeyError")                                 \* reachable only "asShipped"
-     ELSE R(Glue(M, N, base), "none")
+\* mB / nB: the receiver / the newcomer is a block
+EffMerge(M, N, mB, nB) ==
+  IF M.bk.ff # N.bk.ff THEN R(M, "ValueError")                     \* documented refusals, nothing touched
+  ELSE LET M0 == IF M.bk.nrexcl = NULL /\ M.nodes = <<>> THEN [M EXCEPT !.bk.nrexcl = N.bk.nrexcl] ELSE M IN
+  IF M0.bk.nrexcl # N.bk.nrexcl THEN R(M, "ValueError")
+  ELSE IF mB /\ M.nodes # <<>> THEN R(M, "TypeError")              \* keys that are not numbers: no "highest key + 1"
+  ELSE LET base == MergeBase(M0) IN
+  IF M.nodes # <<>> /\ base \notin KeysOf(M) THEN R(M0, "KeyError")    \* reachable only "asShipped"
+  ELSE LET G  == Glue(M0, N, base)
+           G1 == [G EXCEPT !.bk.cit = @ \cup N.bk.cit]
+           lg == MergeLog(M0.bk.log, N.bk.log, N, base, nB)
+           G2 == [G1 EXCEPT !.bk.log = lg.log]
+       IN IF lg.ok THEN RO(G2, "none", MergeBookObs(M, N, G2, base, nB))
+          ELSE RO(G2, "KeyError", {"MergeLogTotal"})
 
 (* system-level operations, expressed with the same effect operators *)
-\* MergeAllMolecules: every later molecule of the system is merged into the first one, in system order
-RECURSIVE FoldMerge(_, _, _)
-FoldMerge(M, heap, ids) == IF ids = <<>> THEN M ELSE FoldMerge(EffMerge(M, heap[Head(ids)]).mol, heap, Tail(ids))
+\* every molecule of `ids` merged into M, in that order; stops at the first refusal
+RECURSIVE FoldMerge(_, _, _, _)
+FoldMerge(M, heap, ids, o) ==
+  IF ids = <<>> THEN RO(M, "none", o)
+  ELSE LET r == EffMerge(M, heap[Head(ids)], FALSE, IsB(Head(ids))) IN
+       IF r.err # "none" THEN RO(r.mol, r.err, o \cup r.obs) ELSE FoldMerge(r.mol, heap, Tail(ids), o \cup r.obs)
 
 \* MergeChains(chains): a NEW molecule receives, in system order, every molecule all of whose atoms carry a chain
 \* (here: the `tag` attribute) from `chains`; the others are left alone
 TagsOf(M) == {M.nodes[i].tag : i \in Idx(M)}
 Selected(heap, ids, chains) == SelectSeq(ids, LAMBDA i : TagsOf(heap[i]) \subseteq chains)
-MergedChains(heap, ids, chains) == FoldMerge(EmptyMol, heap, Selected(heap, ids, chains))
+AllChains(heap, ids) == UNION {TagsOf(heap[ids[j]]) : j \in DOMAIN ids}
+\* the new molecule: force field of the system (none in this model), nrexcl of the first merged molecule, no meta
+MergedChains(heap, ids, chains) ==
+  LET sel == Selected(heap, ids, chains) IN
+  FoldMerge([EmptyMol EXCEPT !.bk.nrexcl = IF sel = <<>> THEN NULL ELSE heap[sel[1]].bk.nrexcl], heap, sel, {})
+\* the molecule list afterwards: the new molecule (cell d) where the first merged molecule was, the other merged ones gone
+RECURSIVE SysAfterChains(_, _, _, _)
+SysAfterChains(ids, sel, d, placed) ==
+  IF ids = <<>> THEN <<>>
+  ELSE IF Head(ids) \in RangeOf(sel)
+       THEN (IF placed THEN <<>> ELSE <<d>>) \o SysAfterChains(Tail(ids), sel, d, TRUE)
+       ELSE <<Head(ids)>> \o SysAfterChains(Tail(ids), sel, d, placed)
 
 \* Block.to_molecule(atom_offset, offset_resid, offset_charge_group): the block's atoms, in order, get the keys
-\* atom_offset, atom_offset + 1, ...; residue numbers and charge groups are shifted; bonds and interactions follow
+\* atom_offset, atom_offset + 1, ...; residue numbers and charge groups are shifted; bonds and interactions follow.
+\* Bookkeeping as found: force field, nrexcl, citations (the block's own set object) and log entries come along, meta does not
 ToMolecule(B, off, dres, dcg) ==
   LET new(k) == off + PosOf(B, k) - 1 IN
   [nodes |-> [i \in Idx(B) |-> [key |-> off + i - 1, resid |-> B.nodes[i].resid + dres, cg |-> B.nodes[i].cg + dcg, tag |-> B.nodes[i].tag]],
    edges |-> {Norm(new(e[1]), new(e[2])) : e \in B.edges},
    inter |-> [t \in Types |-> [j \in DOMAIN B.inter[t] |-> [B.inter[t][j] EXCEPT !.atoms = [p \in DOMAIN B.inter[t][j].atoms |-> new(B.inter[t][j].atoms[p])]]]],
-   maxnode |-> NULL]
+   maxnode |-> NULL,
+   bk |-> [B.bk EXCEPT !.meta = ""]]
+
+-----------------------------------------------------------------------------
+(* the partition of the cells by citation-set object *)
+PartOf(p, c)     == CHOOSE s \in p : c \in s
+Detach(p, d)     == ({s \ {d} : s \in p} \ {{}}) \cup {{d}}
+Join(p, d, s)    == LET q == Detach(p, d) IN {IF s \in x THEN x \cup {d} ELSE x : x \in q \ {{d}}}
+Fresh            == {{c} : c \in Id}
+\* an in-place update of the citation set of cell m is seen through every cell holding the same object
+Propagate(h, p, m) == [c \in Id |-> IF c # m /\ c \in PartOf(p, m) THEN [h[c] EXCEPT !.bk.cit = h[m].bk.cit] ELSE h[c]]
+
+(* generic bookkeeping clauses of one step
+   BookFrame      a call on one molecule leaves the bookkeeping of every other molecule alone
+   LogNoDangling  every atom reference of a log emission is an atom that is present (first step that breaks it)
+   CacheSound     a highest-key cache that is present is right                                                  *)
+CacheOK(M) == \/ M.maxnode = NULL
+              \/ M.nodes = <<>> /\ M.maxnode = 0
+              \/ M.nodes # <<>> /\ M.maxnode = MaxKeyOf(M)
+StepObs(h, h2, touched) ==
+  {c \in {"BookFrame"} : \E x \in Id \ touched : h2[x].bk # h[x].bk}
+  \cup {c \in {"LogNoDangling"} : (\E x \in Id : LogDangles(h2[x])) /\ ~ (\E x \in Id : LogDangles(h[x]))}
+  \cup {c \in {"CacheSound"} : CacheModel = "tracked" /\ \E x \in Id \ BlockIds : ~ CacheOK(h2[x])}
 
 -----------------------------------------------------------------------------
 (* actions *)
-Apply(m, r) == /\ steps < MaxDepth
-               /\ mols' = [mols EXCEPT ![m] = r.mol]
-               /\ err' = r.err
-               /\ steps' = steps + 1
+Step(name, h2, s2, p2, e, o, touched) ==
+  /\ name \in Acts
+  /\ steps < MaxDepth
+  /\ last' = name
+  /\ mols' = h2 /\ sys' = s2 /\ parts' = p2
+  /\ err' = e
+  /\ obs' = o \cup StepObs(mols, h2, touched)
+  /\ steps' = steps + 1
+
+\* a call that changes the object in cell m in place
+Apply(name, m, r) == Step(name, Propagate([mols EXCEPT ![m] = r.mol], parts, m), sys, parts, r.err, r.obs, {m})
+\* a call whose result is a new object, stored in cell d; `like`: the cell whose citation set it holds (0: its own)
+Store(name, d, M, like) == Step(name, [mols EXCEPT ![d] = M], sys,
+                          IF like # 0 /\ CitShared THEN Join(parts, d, like) ELSE Detach(parts, d), "none", {}, {d})
+
+KeysFor(m)  == IF IsB(m) THEN BKey ELSE Key
+AtomsFor(m) == IF IsB(m) THEN BAtomSeqs ELSE AtomSeqs
 
 AddNode(m, k, ai) ==
+  /\ "AddNode" \in Acts
   /\ Len(mols[m].nodes) < MaxNodes \/ k \in KeysOf(mols[m])
-  /\ Apply(m, EffAddNode(mols[m], MkNode(k, ai)))
+  /\ Apply("AddNode", m, EffAddNode(mols[m], MkNode(k, ai), IsB(m)))
 
 AddNodesFrom(m, ks, ai) ==
+  /\ "AddNodesFrom" \in Acts /\ ~ IsB(m)
   /\ Cardinality(KeysOf(mols[m]) \cup ks) <= MaxNodes
-  /\ Apply(m, EffAddNodesFrom(mols[m], [i \in 1..Cardinality(ks) |-> MkNode(SortedSeq(ks)[i], ai)]))
+  /\ Apply("AddNodesFrom", m, EffAddNodesFrom(mols[m], [i \in 1..Cardinality(ks) |-> MkNode(SortedSeq(ks)[i], ai)]))
 
-SetResid(m, k, r) == k \in KeysOf(mols[m]) /\ Apply(m, EffSetResid(mols[m], k, r))
+SetResid(m, k, r) == "SetResid" \in Acts /\ ~ IsB(m) /\ k \in KeysOf(mols[m]) /\ Apply("SetResid", m, EffSetResid(mols[m], k, r))
 
-RemoveNode(m, k) == m \in Id /\ Apply(m, EffRemoveNode(mols[m], k))
+RemoveNode(m, k) == "RemoveNode" \in Acts /\ Apply("RemoveNode", m, EffRemoveNode(mols[m], k))
 
-RemoveNodesFrom(m, ks, oneShot) == ks # {} /\ Apply(m, EffRemoveNodesFrom(mols[m], ks, oneShot))
+RemoveNodesFrom(m, ks, oneShot) == "RemoveNodesFrom" \in Acts /\ ~ IsB(m) /\ ks # {} /\ Apply("RemoveNodesFrom", m, EffRemoveNodesFrom(mols[m], ks, oneShot))
 
-AddEdge(m, a, b) == {a, b} \subseteq KeysOf(mols[m]) /\ Apply(m, EffAddEdge(mols[m], a, b))
+AddEdge(m, a, b) == "AddEdge" \in Acts /\ ~ IsB(m) /\ {a, b} \subseteq KeysOf(mols[m]) /\ Apply("AddEdge", m, EffAddEdge(mols[m], a, b, FALSE))
 
-AddInter(m, ty, at, v, t) == NInter(mols[m]) < MaxInter /\ Apply(m, EffAddInter(mols[m], ty, at, v, t))
+AddInter(m, ty, at, v, t) == "AddInter" \in Acts /\ NInter(mols[m]) < MaxInter /\ Apply("AddInter", m, EffAddInter(mols[m], ty, at, v, t))
+
+\* an interaction that must not become a bond (meta edge = FALSE)
+AddInterNoEdge(m, ty, at) == "AddInterNoEdge" \in Acts /\ NInter(mols[m]) < MaxInter /\ Apply("AddInterNoEdge", m, EffAddInterE(mols[m], ty, at, 0, "n", FALSE))
 
 AddOrReplace(m, ty, at, v, t) ==
+  /\ "AddOrReplace" \in Acts /\ ~ IsB(m)
   /\ NInter(mols[m]) < MaxInter \/ Hits(mols[m], ty, at, v) # {}
-  /\ Apply(m, EffAddOrReplace(mols[m], ty, at, v, t))
+  /\ Apply("AddOrReplace", m, EffAddOrReplace(mols[m], ty, at, v, t))
 
-RemoveInter(m, ty, at, v) == ty \in Types /\ Apply(m, EffRemoveInter(mols[m], ty, at, v))
+\* ... with the citations of a link
+AddOrReplaceCite(m, ty, at, c) ==
+  /\ "AddOrReplaceCite" \in Acts /\ ~ IsB(m)
+  /\ NInter(mols[m]) < MaxInter \/ Hits(mols[m], ty, at, 0) # {}
+  /\ Apply("AddOrReplaceCite", m, EffAddOrReplaceC(mols[m], ty, at, 0, "c", {c}))
 
-KeySeq(M) == [i \in Idx(M) |-> M.nodes[i].key]
-Copy(src, dst) == src # dst /\ Apply(dst, R(SubMol(mols[src], KeySeq(mols[src])), "none"))
+RemoveInter(m, ty, at, v) == "RemoveInter" \in Acts /\ ~ IsB(m) /\ Apply("RemoveInter", m, EffRemoveInter(mols[m], ty, at, v))
 
-Subgraph(src, ks, dst) == src # dst /\ ks \subseteq KeysOf(mols[src]) /\ Apply(dst, R(SubMol(mols[src], SortedSeq(ks)), "none"))
+MakeEdges(m) == "MakeEdges" \in Acts /\ Apply("MakeEdges", m, EffMakeEdges(mols[m], IsB(m)))
 
+Copy(src, dst) == "Copy" \in Acts /\ src # dst /\ ~ IsB(src) /\ ~ IsB(dst) /\ Store("Copy", dst, CopyMol(mols[src]), 0)
+
+Subgraph(src, ks, dst) ==
+  /\ "Subgraph" \in Acts /\ src # dst /\ ~ IsB(src) /\ ~ IsB(dst) /\ ks \subseteq KeysOf(mols[src])
+  /\ Store("Subgraph", dst, SubMol(mols[src], SortedSeq(ks)), src)
+
+GraphCopy(src, dst) == "GraphCopy" \in Acts /\ src # dst /\ ~ IsB(src) /\ ~ IsB(dst) /\ Store("GraphCopy", dst, GraphCopyMol(mols[src]), 0)
+
+\* not generated: a molecule merged into itself; an EMPTY block as the receiver (it would end up with number keys)
 Merge(m, n) ==
+  /\ "Merge" \in Acts
   /\ m # n
+  /\ ~ (IsB(m) /\ mols[m].nodes = <<>>)
   /\ Len(mols[m].nodes) + Len(mols[n].nodes) <= MaxNodes
-  /\ Apply(m, EffMerge(mols[m], mols[n]))
+  /\ Apply("Merge", m, EffMerge(mols[m], mols[n], IsB(m), IsB(n)))
+
+ToMol(b, d, o) ==
+  /\ "ToMol" \in Acts /\ IsB(b) /\ ~ IsB(d)
+  /\ Store("ToMol", d, ToMolecule(mols[b], o[1], o[2], o[3]), b)
+
+\* MergeAllMolecules: every later molecule of the system is merged into the first one, which is then the only one left
+MergeAll ==
+  /\ "MergeAll" \in Acts /\ sys # <<>>
+  /\ LET r == FoldMerge(mols[sys[1]], mols, Tail(sys), {})
+     IN Step("MergeAll", Propagate([mols EXCEPT ![sys[1]] = r.mol], parts, sys[1]), IF r.err = "none" THEN <<sys[1]>> ELSE sys,
+             parts, r.err, r.obs, {sys[1]})
+
+\* MergeChains(chains) / MergeChains(all_chains=True); the new Molecule object lands in the free cell d
+MergeChainsTo(name, chains, d) ==
+  /\ d \notin RangeOf(sys) /\ ~ IsB(d)
+  /\ LET sel == Selected(mols, sys, chains)
+         r   == MergedChains(mols, sys, chains)
+     IN IF sel = <<>> \/ r.err # "none"
+        THEN Step(name, mols, sys, parts, r.err, r.obs, {})                 \* nothing selected, or a refusal: system as before
+        ELSE Step(name, [mols EXCEPT ![d] = r.mol], SysAfterChains(sys, sel, d, FALSE), Detach(parts, d), "none", r.obs, {d})
+MergeChains(chains, d) == "MergeChains" \in Acts /\ MergeChainsTo("MergeChains", chains, d)
+MergeChainsAll(d)      == "MergeChainsAll" \in Acts /\ MergeChainsTo("MergeChainsAll", AllChains(mols, sys), d)
 
 Pairs  == {p \in Key \X Key : p[1] < p[2]}
 Vers   == {0, 1}
 ITags  == {"s", "t"}
 
 Next ==
-  \/ \E m \in Id, k \in Key, ai \in DOMAIN AttrChoice : AddNode(m, k, ai)
+  \/ \E m \in Id : \E k \in KeysFor(m), ai \in DOMAIN AttrChoice : AddNode(m, k, ai)
   \/ \E m \in Id, ks \in NodeSets, ai \in DOMAIN AttrChoice : AddNodesFrom(m, ks, ai)
   \/ \E m \in Id, k \in Key, r \in {MaxResid} : SetResid(m, k, r)
-  \/ \E m \in Id, k \in Key : RemoveNode(m, k)
+  \/ \E m \in Id : \E k \in KeysFor(m) : RemoveNode(m, k)
   \/ \E m \in Id, ks \in NodeSets, o \in BOOLEAN : RemoveNodesFrom(m, ks, o)
   \/ \E m \in Id, p \in Pairs : AddEdge(m, p[1], p[2])
-  \/ \E m \in Id, ty \in Types, at \in AtomSeqs : AddInter(m, ty, at, 0, "s")
+  \/ \E m \in Id, ty \in Types : \E at \in AtomsFor(m) : AddInter(m, ty, at, 0, "s")
+  \/ \E m \in Id, ty \in Types : \E at \in AtomsFor(m) : AddInterNoEdge(m, ty, at)
   \/ \E m \in Id, ty \in Types, at \in AtomSeqs, v \in Vers : AddOrReplace(m, ty, at, v, "t")
+  \/ \E m \in Id, ty \in Types, at \in AtomSeqs : AddOrReplaceCite(m, ty, at, "cx")
   \/ \E m \in Id, ty \in Types, at \in AtomSeqs, v \in Vers : RemoveInter(m, ty, at, v)
+  \/ \E m \in Id : MakeEdges(m)
   \/ \E s, d \in Id : Copy(s, d)
   \/ \E s, d \in Id, ks \in NodeSets : Subgraph(s, ks, d)
+  \/ \E s, d \in Id : GraphCopy(s, d)
   \/ \E m, n \in Id : Merge(m, n)
+  \/ \E b, d \in Id, o \in Offsets : ToMol(b, d, o)
+  \/ MergeAll
+  \/ \E cs \in ChainSets, d \in Id : MergeChains(cs, d)
+  \/ \E d \in Id : MergeChainsAll(d)
 
-Init == /\ mols \in [Id -> InitMols]
+Init == /\ mols \in InitHeaps
+        /\ sys \in InitSys
+        /\ parts = Fresh
         /\ err = "none"
+        /\ obs = {}
+        /\ last = "-"
         /\ steps = 0
 
 Spec == Init /\ [][Next]_vars
@@ -245,43 +476,138 @@ Bounded ==
 
 -----------------------------------------------------------------------------
 (* the property *)
-NoDangling ==
-  \A m \in Id :
-     /\ \A e \in mols[m].edges : e[1] \in KeysOf(mols[m]) /\ e[2] \in KeysOf(mols[m])
-     /\ \A t \in Types : \A j \in DOMAIN mols[m].inter[t] : RangeOf(mols[m].inter[t][j].atoms) \subseteq KeysOf(mols[m])
+NoDanglingMol(M) ==
+  /\ \A e \in M.edges : e[1] \in KeysOf(M) /\ e[2] \in KeysOf(M)
+  /\ \A t \in Types : \A j \in DOMAIN M.inter[t] : RangeOf(M.inter[t][j].atoms) \subseteq KeysOf(M)
+NoDangling == \A m \in Id : NoDanglingMol(mols[m])
 
 UniqueKeys == \A m \in Id : \A i, j \in Idx(mols[m]) : i # j => mols[m].nodes[i].key # mols[m].nodes[j].key
 
-\* a merge never fails on operands of the same force field, keeps every atom/bond/interaction of the
-\* receiver untouched, adds every atom/bond/interaction of the newcomer under fresh keys, shifted uniformly
+SysWellFormed == /\ RangeOf(sys) \subseteq Id \ BlockIds
+                 /\ \A i, j \in DOMAIN sys : i # j => sys[i] # sys[j]
+PartsWellFormed == /\ UNION parts = Id /\ {} \notin parts
+                   /\ \A x, y \in parts : x # y => x \cap y = {}
+                   /\ \A x \in parts : \A c, d \in x : mols[c].bk.cit = mols[d].bk.cit
+                   /\ (~ CitShared => parts = Fresh)
+
+\* the declarative form of one merge: (M, N) -> M2
+\* nothing of the receiver overwritten or dropped, every atom / bond / interaction of the newcomer present under fresh
+\* keys, residue numbers and charge groups shifted uniformly by those of the receiver's last (highest-key) atom
+Conserved(M, N, M2) ==
+  /\ Len(M2.nodes) = Len(M.nodes) + Len(N.nodes)
+  /\ \A i \in Idx(M) : M2.nodes[i] = M.nodes[i]
+  /\ \A i \in Idx(N) : M2.nodes[Len(M.nodes) + i].key \notin KeysOf(M)
+  /\ \A i, j \in Idx(M2) : i # j => M2.nodes[i].key # M2.nodes[j].key
+  /\ \E dr, dc \in 0..MaxResid :
+        /\ (M.nodes # <<>> => dr = NodeOf(M, MaxKeyOf(M)).resid /\ dc = NodeOf(M, MaxKeyOf(M)).cg)
+        /\ (M.nodes = <<>> => dr = 0 /\ dc = 0)
+        /\ \A i \in Idx(N) : LET x == M2.nodes[Len(M.nodes) + i] IN
+              x.resid = N.nodes[i].resid + dr /\ x.cg = N.nodes[i].cg + dc /\ x.tag = N.nodes[i].tag
+  /\ \A t \in Types :
+        /\ Len(M2.inter[t]) = Len(M.inter[t]) + Len(N.inter[t])
+        /\ \A j \in DOMAIN M.inter[t] : M2.inter[t][j] = M.inter[t][j]
+        /\ \A j \in DOMAIN N.inter[t] : LET y == M2.inter[t][Len(M.inter[t]) + j] IN
+              /\ y.ver = N.inter[t][j].ver /\ y.tag = N.inter[t][j].tag /\ y.edge = N.inter[t][j].edge
+              /\ \A p \in DOMAIN y.atoms : y.atoms[p] = M2.nodes[Len(M.nodes) + PosOf(N, N.inter[t][j].atoms[p])].key
+  /\ M.edges \subseteq M2.edges
+  /\ Cardinality(M2.edges) = Cardinality(M.edges) + Cardinality({e \in N.edges : e[1] # e[2]})
+  /\ \A e \in N.edges : e[1] # e[2] =>
+        Norm(M2.nodes[Len(M.nodes) + PosOf(N, e[1])].key, M2.nodes[Len(M.nodes) + PosOf(N, e[2])].key) \in M2.edges
+
+Stmt(M) == [nodes |-> M.nodes, edges |-> M.edges, inter |-> M.inter]        \* what the statement speaks of
+
+\* a merge is refused only for the documented reasons (other force field / nrexcl: ValueError; a receiver whose keys
+\* are not numbers: TypeError) and then touches nothing; otherwise it conserves.  A KeyError raised AFTER everything
+\* was merged, because a log entry of the newcomer refers to an atom that was removed, is a matter of the bookkeeping
+\* clause MergeLogTotal: the atoms, bonds and interactions must be conserved all the same.
 MergeConserves ==
-  [][\A m, n \in Id : Merge(m, n) =>
-       LET M == mols[m]  M2 == mols'[m]
-       IN /\ err' = "none"
-          /\ LET N == mols[n] IN
-               /\ Len(M2.nodes) = Len(M.nodes) + Len(N.nodes)
-               /\ \A i \in Idx(M) : M2.nodes[i] = M.nodes[i]                      \* nothing overwritten or dropped
-               /\ \A i \in Idx(N) : M2.nodes[Len(M.nodes) + i].key \notin KeysOf(M)  \* fresh keys
-               /\ \E dr, dc \in 0..MaxResid :
-                     /\ (M.nodes # <<>> => dr = NodeOf(M, MaxKeyOf(M)).resid /\ dc = NodeOf(M, MaxKeyOf(M)).cg)
-                     /\ (M.nodes = <<>> => dr = 0 /\ dc = 0)
-                     /\ \A i \in Idx(N) : LET x == M2.nodes[Len(M.nodes) + i] IN
-                           x.resid = N.nodes[i].resid + dr /\ x.cg = N.nodes[i].cg + dc /\ x.tag = N.nodes[i].tag
-               /\ \A t \in Types :
-                     /\ Len(M2.inter[t]) = Len(M.inter[t]) + Len(N.inter[t])
-                     /\ \A j \in DOMAIN M.inter[t] : M2.inter[t][j] = M.inter[t][j]
-                     /\ \A j \in DOMAIN N.inter[t] : LET y == M2.inter[t][Len(M.inter[t]) + j] IN
-                           /\ y.ver = N.inter[t][j].ver /\ y.tag = N.inter[t][j].tag
-                           /\ \A p \in DOMAIN y.atoms : y.atoms[p] = M2.nodes[Len(M.nodes) + PosOf(N, N.inter[t][j].atoms[p])].key
-               /\ M.edges \subseteq M2.edges
-               /\ Cardinality(M2.edges) = Cardinality(M.edges) + Cardinality(N.edges)
+  [][\A m, n \in Id : last' = "Merge" /\ Merge(m, n) =>
+       LET M == mols[m]  N == mols[n]  M2 == mols'[m]
+           refusal == \/ M.bk.ff # N.bk.ff
+                      \/ M.bk.nrexcl # N.bk.nrexcl /\ ~ (M.bk.nrexcl = NULL /\ M.nodes = <<>>)
+       IN IF refusal THEN err' = "ValueError" /\ M2 = M
+          ELSE IF IsB(m) THEN err' = "TypeError" /\ M2 = M
+          ELSE /\ Conserved(M, N, M2)
+               /\ err' = "none" \/ (err' = "KeyError" /\ LogDangles(N))
   ]_vars
 
-\* an action on one heap cell leaves every other cell - in particular the source of a copy - unchanged
+\* MergeAllMolecules in closed form: one molecule is left, the first; it holds the atoms of all, molecule after
+\* molecule; block j is numbered after the highest key of everything before it and shifted by the residue number and
+\* charge group of THAT atom
+PrefixLen(h, ids, j) == LET RECURSIVE S(_) S(i) == IF i = 0 THEN 0 ELSE Len(h[ids[i]].nodes) + S(i - 1) IN S(j - 1)
+MergeAllConserves ==
+  [][last' = "MergeAll" /\ err' = "none" /\ MergeAll =>
+       LET R0 == mols'[sys[1]] IN
+       /\ sys' = <<sys[1]>>
+       /\ Len(R0.nodes) = PrefixLen(mols, sys, Len(sys) + 1)
+       /\ \A i \in Idx(mols[sys[1]]) : R0.nodes[i] = mols[sys[1]].nodes[i]
+       /\ \A j \in 2..Len(sys) :
+             LET N   == mols[sys[j]]
+                 pl  == PrefixLen(mols, sys, j)
+                 pre == [nodes |-> SubSeq(R0.nodes, 1, pl)]
+                 top == IF pl = 0 THEN [key |-> 0, resid |-> 0, cg |-> 0] ELSE NodeOf(pre, MaxKeyOf(pre))
+             IN \A i \in Idx(N) : LET x == R0.nodes[pl + i] IN
+                   /\ x.key = top.key + i
+                   /\ x.resid = N.nodes[i].resid + top.resid /\ x.cg = N.nodes[i].cg + top.cg /\ x.tag = N.nodes[i].tag
+       /\ \A t \in Types : Len(R0.inter[t]) = LET RECURSIVE S(_) S(i) == IF i = 0 THEN 0 ELSE Len(mols[sys[i]].inter[t]) + S(i - 1) IN S(Len(sys))
+       /\ \A j \in 2..Len(sys) : mols'[sys[j]] = mols[sys[j]]                  \* the merged molecules themselves are not touched
+       /\ NoDanglingMol(R0)
+  ]_vars
+
+\* MergeChains: which molecules disappear from the system and what replaces them
+MergeChainsPartition ==
+  [][\A cs \in ChainSets \cup {AllChains(mols, sys)}, d \in Id :
+       (/\ last' \in {"MergeChains", "MergeChainsAll"} /\ err' = "none"
+        /\ (MergeChains(cs, d) \/ (cs = AllChains(mols, sys) /\ MergeChainsAll(d)))) =>
+       LET sel == {c \in RangeOf(sys) : TagsOf(mols[c]) \subseteq cs} IN
+       IF sel = {} THEN sys' = sys /\ mols' = mols
+       ELSE /\ RangeOf(sys') = (RangeOf(sys) \ sel) \cup {d}                     \* exactly the selected molecules leave
+            /\ \A c \in Id \ {d} : mols'[c] = mols[c]                             \* every other object is untouched
+            /\ \A i, j \in DOMAIN sys' : i < j /\ sys'[i] # d /\ sys'[j] # d =>   \* the others keep their order
+                  PosOf([nodes |-> [x \in DOMAIN sys |-> [key |-> sys[x]]]], sys'[i]) < PosOf([nodes |-> [x \in DOMAIN sys |-> [key |-> sys[x]]]], sys'[j])
+            /\ Len(mols'[d].nodes) = LET RECURSIVE S(_) S(T) == IF T = {} THEN 0 ELSE LET c == CHOOSE x \in T : TRUE IN Len(mols[c].nodes) + S(T \ {c}) IN S(sel)
+            /\ \A i \in Idx(mols'[d]) : mols'[d].nodes[i].key = i               \* a new molecule is numbered from 1
+            /\ NoDanglingMol(mols'[d])
+  ]_vars
+
+\* Block.to_molecule: names become consecutive keys from the offset, everything follows
+ToMolFaithful ==
+  [][\A b, d \in Id, o \in Offsets : last' = "ToMol" /\ ToMol(b, d, o) =>
+       LET B == mols[b]  M2 == mols'[d] IN
+       /\ Len(M2.nodes) = Len(B.nodes)
+       /\ \A i \in Idx(B) : /\ M2.nodes[i].key = o[1] + i - 1
+                            /\ M2.nodes[i].resid = B.nodes[i].resid + o[2] /\ M2.nodes[i].cg = B.nodes[i].cg + o[3]
+                            /\ M2.nodes[i].tag = B.nodes[i].tag
+       /\ Cardinality(M2.edges) = Cardinality(B.edges)
+       /\ \A e \in B.edges : Norm(o[1] + PosOf(B, e[1]) - 1, o[1] + PosOf(B, e[2]) - 1) \in M2.edges
+       /\ \A t \in Types : /\ Len(M2.inter[t]) = Len(B.inter[t])
+                           /\ \A j \in DOMAIN B.inter[t] : \A p \in DOMAIN B.inter[t][j].atoms :
+                                 M2.inter[t][j].atoms[p] = o[1] + PosOf(B, B.inter[t][j].atoms[p]) - 1
+       /\ NoDanglingMol(M2)
+       /\ mols'[b] = mols[b]
+  ]_vars
+
+\* bonds made from interactions join consecutive atoms of edge-making interactions only
+MakeEdgesSound ==
+  [][\A m \in Id : last' = "MakeEdges" /\ MakeEdges(m) =>
+       \A e \in mols'[m].edges \ mols[m].edges :
+          \E t \in Types \cap EdgeTypes : \E j \in DOMAIN mols[m].inter[t] :
+             /\ mols[m].inter[t][j].edge
+             /\ \E p \in 1..(Len(mols[m].inter[t][j].atoms) - 1) :
+                   {e[1], e[2]} = {mols[m].inter[t][j].atoms[p], mols[m].inter[t][j].atoms[p + 1]}
+  ]_vars
+
+\* an action on one heap cell leaves the atoms, bonds and interactions of every other cell - in particular the source
+\* of a copy, a subgraph or a block instantiation, and the newcomer of a merge - unchanged
 FrameStep ==
-  /\ \A m \in Id : mols'[m] # mols[m] => \A n \in Id \ {m} : mols'[n] = mols[n]
-  /\ \A s, d \in Id : Copy(s, d) => mols'[s] = mols[s]
-  /\ \A s, d \in Id, ks \in NodeSets : Subgraph(s, ks, d) => mols'[s] = mols[s]
-  /\ \A m, n \in Id : Merge(m, n) => mols'[n] = mols[n]
+  /\ \A m \in Id : Stmt(mols'[m]) # Stmt(mols[m]) => \A n \in Id \ {m} : Stmt(mols'[n]) = Stmt(mols[n])
+  /\ \A s, d \in Id : last' = "Copy" /\ Copy(s, d) => mols'[s] = mols[s]
+  /\ \A s, d \in Id : last' = "GraphCopy" /\ GraphCopy(s, d) => mols'[s] = mols[s]
+  /\ \A s, d \in Id, ks \in NodeSets : last' = "Subgraph" /\ Subgraph(s, ks, d) => mols'[s] = mols[s]
+  /\ \A m, n \in Id : last' = "Merge" /\ Merge(m, n) => Stmt(mols'[n]) = Stmt(mols[n])
 Frame == [][FrameStep]_vars
+
+\* BOOKKEEPING, demanded form (these hold when LogExtra = "blocks", CitShared = FALSE, LogPurge = TRUE)
+BookClean == obs = {}
+CacheSound == CacheModel = "tracked" => \A m \in Id \ BlockIds : CacheOK(mols[m])
 =============================================================================
